@@ -8,7 +8,7 @@ namespace Sugar.Props.C19
 open Sugar
 
 /-- the figure of an empty dataset is zero -/
-theorem empty_dataset_zero : memFn ⟨[], 0⟩ = 0 ∧ drift ⟨[], 0⟩ = 0 := ⟨rfl, rfl⟩
+theorem empty_dataset_zero : memFn { dbs := [], mem := 0 } = 0 ∧ drift { dbs := [], mem := 0 } = 0 := ⟨rfl, rfl⟩
 
 /-- **Exact law of a write.** One `setValues` loop iteration on key `k` moves the drift by exactly the
     accounted size of the entry it overwrites (0 when the key was absent): the new size is added to
@@ -73,17 +73,17 @@ theorem fresh_writes_keep_exact (i : Nat) : ∀ (kvs : List (Bytes × Val)) (s :
     the dataset it holds (witness evaluated on the model; replayed on the implementation by the check). -/
 theorem overwrite_witness :
     let c : Ctx := { db := 0, now := 1000 }
-    let s1 := (setValues c ⟨[], 0⟩ [(b "k", .str (b "a"))]).1
+    let s1 := (setValues c { dbs := [], mem := 0 } [(b "k", .str (b "a"))]).1
     let s2 := (setValues c s1 [(b "k", .str (b "a"))]).1
     drift s1 = 0 ∧ drift s2 = 58 ∧ memFn s2 = 58 ∧ s2.mem = 116 := by decide
 
 /-- FLUSHDB empties the dataset and leaves the counter where it was -/
 theorem flush_witness :
     let c : Ctx := { db := 0, now := 1000 }
-    let s1 := (setValues c ⟨[], 0⟩ [(b "k", .str (b "a"))]).1
+    let s1 := (setValues c { dbs := [], mem := 0 } [(b "k", .str (b "a"))]).1
     (flushDb s1 0).map (fun s => (memFn s, s.mem)) = some (0, 58) := by decide
 
 /-- non-vacuity of `fresh_writes_keep_exact`: two fresh keys on a state that has database 0 -/
-example : drift ([(b "x", Val.str (b "1")), (b "y", Val.int 2)].foldl (setOne 0) ⟨[(0, ⟨[], []⟩)], 0⟩) = 0 := by decide
+example : drift ([(b "x", Val.str (b "1")), (b "y", Val.int 2)].foldl (setOne 0) { dbs := [(0, ⟨[], []⟩)], mem := 0 }) = 0 := by decide
 
 end Sugar.Props.C19
